@@ -380,23 +380,33 @@ def run_case_(c, tier, keep=False):
         timeout = c.get("timeout_thorough", timeout * 2)
     memcap = int(max(c.get("mem_gb", 3) * 2, 6) * 1024 * 1024)   # hard cap = twice the declared budget (>= 6 GB)
     sel = []
-    ex_re, only_re = c.get("exclude_properties_re"), c.get("only_properties_re")
-    if ex_re or only_re:
-        # E8 slicing: list the properties, keep the selected ones (witnesses are always kept)
-        rc, out, err, _, _ = sh(cbmc_cmd(c, linked, ["--show-properties"]), timeout=120)
+    ex_re, only_re = list(c.get("exclude_properties_re") or []), c.get("only_properties_re")
+    c.excluded_formation = []
+    if True:
+        # E7/E8: list the properties; drop (a) out-of-object pointer *relation* checks (formal UB without a dereference:
+        # CBMC treats their failure as fatal and then reports everything downstream as UNKNOWN), (b) what the case slices away.
+        rc, out, err, _, _ = sh(cbmc_cmd(c, linked, ["--show-properties"]), timeout=300)
         names = []
         try:
             for item in json.loads(out):
                 for pr in item.get("properties", []) if isinstance(item, dict) else []:
-                    names.append((pr["name"], pr.get("description", "")))
+                    names.append((pr["name"], pr.get("description", ""), pr.get("sourceLocation", {})))
         except Exception:
             pass
-        for n, d in names:
+        if not names:
+            c.status, c.detail = "error", "could not list properties: " + (out[-800:] + err[-800:])
+            c.wall_s = time.time() - t0
+            return c
+        strict = c.get("strict_pointer_formation", False)
+        for n, d, sl in names:
             keep = True
             if only_re and not any(re.search(x, n + " " + d) for x in only_re):
                 keep = False
             if ex_re and any(re.search(x, n + " " + d) for x in ex_re):
                 keep = False
+            if not strict and UB_FORMATION.match(d):
+                keep = False
+                c.excluded_formation.append("%s @ %s:%s" % (d[:70], os.path.basename(sl.get("file", "?")), sl.get("line", "?")))
             if d.startswith("VF_WITNESS"):
                 keep = True
             if keep:
@@ -538,6 +548,10 @@ def make_replay(c, linked, wd, timeout, memcap):
         js = json.loads(out)
         for item in js:
             for r in item.get("result", []) if isinstance(item, dict) else []:
+                if vals or steps:
+                    break      # one trace only
+                if first.get("property") and r.get("property") != first["property"]:
+                    continue
                 for st in r.get("trace", []) or []:
                     if st.get("stepType") == "assignment":
                         lhs = st.get("lhs", "")
@@ -760,7 +774,7 @@ def check(pid, tier, only=None, jobs=None, keep=False):
             "outside_claim": agg["outside_claim"],
             "solver_s": round(sum(c.solver_s for c in done), 2),
             "backend": sorted(set(c.get("backend", "minisat") for c in done)),
-            "ub_pointer_formation": sorted(set("%s @ %s" % (u["description"][:80], u["loc"]) for c in done for u in c.ub_formation))[:40],
+            "ub_pointer_formation_not_checked": sorted(set(x for c in done for x in getattr(c, "excluded_formation", [])))[:60],
             "repo_tree_hash": tree_hash(),
             "generated": gen_info.get("info", {}),
         },
